@@ -219,30 +219,45 @@ theorem C02_progress_needs_release_witness :
 /-! ## Connections pooled closed (`Connection: close` replies) -/
 
 /-- **A dead pooled connection costs one item.**  In ANY configuration, a thread whose `get()` finds
-a connection object `c` on top of the queue — open, or closed by a `Connection: close` reply
-(`_get_conn`'s dropped-connection branch) — takes exactly that one item: the rest of the queue is
-untouched whatever lies below, no socket is opened or closed and no connection object is created
-by the checkout; the thread then writes its request on that SAME object, which is open afterwards
-(reconnected if it was closed), still with nothing else taken from the queue. -/
+a connection object `c` on top of the queue — open, closed by a `Connection: close` reply, or open
+with the peer gone (`_get_conn`'s dropped-connection branch) — takes exactly that one item: the
+rest of the queue is untouched whatever lies below, no socket is opened or closed and no
+connection object is created by the checkout.  The thread's next steps stay on that SAME object and
+take nothing more: if the peer had dropped the connection it is closed first (`conn.close()`), and
+then — in either case — the request is written on it, after which it is open (reconnected if it
+was closed). -/
 theorem C02_closed_connection_checkout (s : State) (t : Nat) (th : Thread) (c : ConnId)
     (q : List (Option ConnId)) (f : Nat) (l : Outcome) (st : Bool)
     (hget : s.threads[t]? = some th) (hpc : th.pc = .getQ f l st) (hq : s.sh.queue = some c :: q) :
-    ∃ s', step s t = some s' ∧ s'.sh.queue = q ∧ s'.sh.openC = s.sh.openC ∧
-      s'.sh.nextId = s.sh.nextId ∧ s'.threads[t]? = some { th with pc := .send c f l st } ∧
-      ∀ s'', step s' t = some s'' →
-        c ∈ s''.sh.openC ∧ s''.sh.queue = q ∧ s''.sh.nextId = s.sh.nextId := by
+    ∃ s1, step s t = some s1 ∧ s1.sh.queue = q ∧ s1.sh.openC = s.sh.openC ∧
+      s1.sh.nextId = s.sh.nextId ∧
+      ∀ s2, step s1 t = some s2 → s2.sh.queue = q ∧ s2.sh.nextId = s.sh.nextId ∧
+        if c ∈ s.sh.gone then
+          c ∉ s2.sh.openC ∧ ∀ s3, step s2 t = some s3 →
+            c ∈ s3.sh.openC ∧ s3.sh.queue = q ∧ s3.sh.nextId = s.sh.nextId
+        else c ∈ s2.sh.openC := by
   have hts := tstep_getQ_conn (cfg := s.cfg) (tid := t) hpc hq
-  refine ⟨{ s with sh := { s.sh with queue := q },
-                   threads := s.threads.set t { th with pc := .send c f l st } }, ?_, rfl, rfl, rfl,
-    by simp [getElem?_set_of_get hget], ?_⟩
-  · simp [step, hget, hts]
-  · intro s'' h2
-    obtain ⟨th1, sh2, th2, hget1, hts2, rfl⟩ := step_some h2
-    have hth1 : th1 = { th with pc := .send c f l st } := by
-      simpa [getElem?_set_of_get hget] using hget1.symm
-    subst hth1
-    obtain ⟨h3, h4, h5, -⟩ := tstep_send_opens (c := c) (f := f) (l := l) (st := st) rfl hts2
-    exact ⟨h3, h4, h5⟩
+  let th1 : Thread :=
+    { th with pc := if s.sh.gone.contains c then .dropClose c f l st else .send c f l st }
+  let s1 : State := { s with sh := { s.sh with queue := q }, threads := s.threads.set t th1 }
+  refine ⟨s1, ?_, rfl, rfl, rfl, ?_⟩
+  · simp [step, hget, hts, th1, s1]
+  · intro s2 h2
+    have hget1 : s1.threads[t]? = some th1 := by simp [s1, getElem?_set_of_get hget]
+    by_cases hg : c ∈ s.sh.gone
+    · have hpc1 : th1.pc = .dropClose c f l st := by simp [th1, hg]
+      obtain ⟨h3, h4, h5, th2, hget2, hpc2⟩ := step_dropClose hget1 hpc1 h2
+      refine ⟨h4, h5, ?_⟩
+      rw [if_pos hg]
+      refine ⟨h3, ?_⟩
+      intro s3 h6
+      obtain ⟨h7, h8, h9⟩ := step_send_opens hget2 hpc2 h6
+      exact ⟨h7, h8.trans h4, h9.trans h5⟩
+    · have hpc1 : th1.pc = .send c f l st := by simp [th1, hg]
+      obtain ⟨h3, h4, h5⟩ := step_send_opens hget1 hpc1 h2
+      refine ⟨h4, h5, ?_⟩
+      rw [if_neg hg]
+      exact h3
 
 /-- non-vacuity: after a request answered with `Connection: close` the pool (`maxsize = 2`) holds
 the connection object 0 with its socket closed, on top of a placeholder; the thread's next request
@@ -263,6 +278,23 @@ theorem C02_pooled_closed_connection_reused :
     s1.sh.queue = [some 0, none] ∧ s1.sh.openC = [] ∧
     allDone s2 = true ∧ s2.sh.queue = [some 0, none] ∧ s2.sh.openC = [0] ∧ s2.sh.nextId = 1 ∧
       s2.sh.maxOpen = 1 ∧ results s2 = [[(.req 0 .okClose false, .ok), (.req 0 .ok false, .ok)]] := by
+  decide
+
+/-- **A connection dropped by its peer is closed, then reused.**  One thread, a keep-alive reply after
+which the peer closes (`okDrop`), then a second request (`block=True`, `maxsize = 2`): the
+connection is pooled with its socket open; the next checkout takes that one item, closes the
+socket (`dropClose`), and the request reconnects the same object — one connection object in all,
+never more than one socket, both slots back at the end. -/
+theorem C02_dropped_connection_reused :
+    let s1 := run ⟨2, true, false⟩ [[.req 0 .okDrop false, .req 0 .ok false]] (List.replicate 8 0)
+    let s2 := runFrom s1 [0, 0, 0]
+    let s3 := runFrom s2 [0]
+    let s4 := runFrom s3 (List.replicate 5 0)
+    s1.sh.queue = [some 0, none] ∧ s1.sh.openC = [0] ∧ s1.sh.gone = [0] ∧
+    (s2.threads.map (·.pc)) = [.dropClose 0 0 .ok false] ∧ s2.sh.queue = [none] ∧ s2.sh.openC = [0] ∧
+    (s3.threads.map (·.pc)) = [.send 0 0 .ok false] ∧ s3.sh.openC = [] ∧
+    allDone s4 = true ∧ s4.sh.queue = [some 0, none] ∧ s4.sh.openC = [0] ∧ s4.sh.nextId = 1 ∧
+      s4.sh.maxOpen = 1 ∧ s4.sh.gone = [] := by
   decide
 
 /-- **`EmptyPoolError` only when the pool is exhausted.**  Threads that follow the lease discipline
@@ -391,13 +423,14 @@ example : enabled (run ⟨1, true, true⟩ [[.close]] [0, 0, 0, 0, 0]) 0 = false
 request and only if some thread calls `close()`; `EmptyPoolError` only for a request on a
 `block=True` pool with a `pool_timeout`; `MaxRetryError` (`failed`) only for a request whose last
 attempt is scripted to fail; and a request that ends `ok` is one whose last attempt is scripted to
-succeed (with a keep-alive reply, `ok`, or with `Connection: close`, `okClose`). -/
+succeed (`ok`: keep-alive reply; `okClose`: with `Connection: close`; `okDrop`: keep-alive, then
+the peer closes) — anything but `fail`. -/
 theorem C02_results_as_scripted (cfg : Cfg) (progs : List (List Op)) (σ : List Nat) :
     ∀ rs ∈ results (run cfg progs σ), ∀ p ∈ rs,
       (p.2 = .closedPool → 1 ≤ closeCount progs ∧ ∃ f l st, p.1 = .req f l st) ∧
       (p.2 = .emptyPool → cfg.block = true ∧ cfg.timeout = true ∧ ∃ f l st, p.1 = .req f l st) ∧
       (p.2 = .failed → ∃ f st, p.1 = .req f .fail st) ∧
-      (p.2 = .ok → ∀ f l st, p.1 = .req f l st → l = .ok ∨ l = .okClose) := by
+      (p.2 = .ok → ∀ f l st, p.1 = .req f l st → l ≠ .fail) := by
   intro rs hrs p hp
   have hi := invAll_run cfg progs σ
   simp only [results, List.mem_map] at hrs
@@ -411,10 +444,7 @@ theorem C02_results_as_scripted (cfg : Cfg) (progs : List (List Op)) (σ : List 
   rw [hn] at h1
   have hk : ∀ op : Op, op.kind = 0 → ∃ f l st, op = .req f l st := by
     intro op h; cases op <;> simp at h; exact ⟨_, _, _, rfl⟩
-  refine ⟨fun h => ⟨(h1 h).1, hk _ (h1 h).2⟩, fun h => ⟨(h2 h).1, (h2 h).2.1, hk _ (h2 h).2.2⟩, h3, ?_⟩
-  intro h f l st hop
-  have := h4 h f l st hop
-  cases l <;> simp at this ⊢
+  exact ⟨fun h => ⟨(h1 h).1, hk _ (h1 h).2⟩, fun h => ⟨(h2 h).1, (h2 h).2.1, hk _ (h2 h).2.2⟩, h3, h4⟩
 
 /-- **Without `close()` everything ends as scripted.**  No `close` op in the programs: under every
 schedule a finished request ended `ok` (last attempt scripted `ok`), with `MaxRetryError` (last
@@ -423,7 +453,7 @@ attempt scripted `fail`) or — `block=True` with `pool_timeout` only — with `
 theorem C02_no_close_results (cfg : Cfg) (progs : List (List Op)) (σ : List Nat)
     (h0 : closeCount progs = 0) :
     ∀ rs ∈ results (run cfg progs σ), ∀ p ∈ rs,
-      (p.2 = .ok ∧ ∀ f l st, p.1 = .req f l st → l = .ok ∨ l = .okClose) ∨
+      (p.2 = .ok ∧ ∀ f l st, p.1 = .req f l st → l ≠ .fail) ∨
       (p.2 = .failed ∧ ∃ f st, p.1 = .req f .fail st) ∨
       (p.2 = .emptyPool ∧ cfg.block = true ∧ cfg.timeout = true ∧ ∃ f l st, p.1 = .req f l st) := by
   intro rs hrs p hp
